@@ -251,6 +251,11 @@ def api_batches(chk, rng, n):
                 fails.append(dict(clause="same-final-store", mode=mode, elements=xs, pre=pre, batch=repr(out["batch"][1:]), individual=repr(out["single"][1:])))
             elif isinstance(out["batch-execs"], str):
                 fails.append(dict(clause="element-runs-at-most-once", mode=mode, elements=xs, pre=pre, executions=out["batch-execs"]))
+            elif out["batch-execs"] != out["single-execs"] and not isinstance(out["single-execs"], str) and not (
+                    isinstance(out["batch"][0], str) or isinstance(out["single"][0], str)):
+                # (when the batch raised as a whole — raise_first_exception — the elements after the failure are not compared here)
+                fails.append(dict(clause="same-final-store", mode=mode, elements=xs, pre=pre, note="bodies run",
+                                  batch=repr(out["batch-execs"]), individual=repr(out["single-execs"])))
     finally:
         m.Environment.set(orig)
     return fails
